@@ -216,6 +216,13 @@ def streams(rng, tier):
         s = G.render(rng, f)
         if rng.random() < 0.1: s = gen.mutate(rng, s, G.MUT_CH)
         out.append(Case("law-req-prefix", "law.k.req", [s, rng.choice(G.REQ_PREFIXES), rng.choice(["", "", "\n"])], kind="law"))
+    # long or-lists / and-lists
+    for _ in range(250 if q else 6000):
+        f = G.long_expr(rng, rng.randrange(4, 41))
+        s = G.render(rng, f, outer=rng.choice([0, 0, 1]))
+        out.append(Case("long-lists", "k.str", [s]))
+        out.append(Case("law-long-lists", "law.k.roundtrip", [s, json.dumps(G.env_for(rng, f))], kind="law"))
+        out.append(Case("long-lists", "k.eq", [s, G.render(rng, f, extra_spelling=True, outer=rng.choice([0, 2]))]))
     # a trailing newline: END is '$'
     for _ in range(250 if q else 6000):
         f = G.rand_expr(rng, rng.randrange(3))
